@@ -390,41 +390,246 @@ def path_checkers(f):
 _SHRINK = {"truncate": 1, "split_off": 1}
 
 
-def _addends(t, consts, depth=0):
-    """The addends of a sum spelt with checked / plain additions: `a + b + 1` → [a, b, 1]; None if something is subtracted."""
-    t = K.fold_consts(strip_deep(t), consts)
-    if t[0] == "mvar":
-        t = strip_deep(t[3])
-    if t[0] == "field" and str(t[2]) == "0" and strip_deep(t[1])[0] == "bin" and strip_deep(t[1])[1] == "AddWithOverflow":
-        t = strip_deep(t[1])
-    if t[0] == "bin" and t[1] in ("Add", "AddWithOverflow", "AddUnchecked") and depth < 12:
-        x, y = _addends(t[2], consts, depth + 1), _addends(t[3], consts, depth + 1)
-        return None if x is None or y is None else x + y
-    return [t]
+class _Frame:
+    """A body together with what its parameters / captures stand for: {("param"|"upvar", name): (term, frame that
+    term is written in)}.  The root frame (the function under inspection) has no bindings: its `self` is the URI."""
+
+    def __init__(self, f, body, env=None, parent=None):
+        self.f, self.body, self.sym, self.env, self.parent = f, body, K.sym_of(body), env or {}, parent
+        self.depth = 0 if parent is None else parent.depth + 1
+
+    def resolve(self, t):
+        """(frame, term): a parameter / capture read as the value handed in by the creating / calling frame."""
+        fr = self
+        t = strip_deep(t)
+        n = 0
+        while t[0] in ("param", "upvar") and (t[0], t[1]) in fr.env and n < 12:
+            t, fr = fr.env[(t[0], t[1])]
+            t = strip_deep(t)
+            n += 1
+        return fr, t
+
+    def is_self(self, t):
+        fr, t = self.resolve(t)
+        return fr.parent is None and t[0] == "param" and fr.body.arg_count >= 1 and \
+            t[1] == (fr.body.local_name(1) or "_1") and t[1] == "self"
+
+
+def _fn_frame(fr, fn_t, args):
+    """Frame for applying the function value `fn_t` (a closure, or a crate function passed by name) to `args` (terms of
+    frame `fr`; None = an unknown value)."""
+    fn_t = strip_deep(fn_t)
+    if fr.depth > 5:
+        return None
+    if fn_t[0] == "closure":
+        cb = fr.f.body(fn_t[1])
+        if cb is None:
+            return None
+        env = {}
+        for name, pl in cb.rec.get("upvars", []):
+            idx = None
+            for pe in pl.get("p", []):
+                if pe and pe[0] == "f":
+                    try:
+                        idx = int(pe[1])
+                    except (TypeError, ValueError):
+                        idx = None
+                    break
+            if idx is not None and idx < len(fn_t[2]):
+                env[("upvar", name)] = (fn_t[2][idx], fr)
+        first = 2
+    elif fn_t[0] == "fnref":
+        cb = fr.f.body(fn_t[1])
+        if cb is None or "{closure" in cb.name:
+            return None
+        env = {}
+        first = 1
+    else:
+        return None
+    for i, a in enumerate(args):
+        if a is not None and first + i <= cb.arg_count:
+            env[("param", cb.local_name(first + i) or "_%d" % (first + i))] = (a, fr)
+    return _Frame(fr.f, cb, env, fr)
+
+
+_STD = ("core", "std", "alloc")
+_PAYLOAD_VARIANTS = ("Some", "Ok", "Continue")
+
+
+def _payload_of(o):
+    """The term `o↓Some.0`: the payload of an Option / Result value, as a match arm reads it."""
+    return ("field", ("variant", o, "Some"), "0", None)
+
+
+def _ge_fn(fr, fn_t, args, off, seen, payload=False):
+    sub = _fn_frame(fr, fn_t, args)
+    if sub is None:
+        return False
+    r = sub.sym.local(0)
+    return _ge_payload(sub, r, off, seen) if payload else _ge(sub, r, off, seen)
+
+
+def _ge(fr, t, off, seen):
+    """Is the unsigned integer `t` (a term of frame fr) ≥ self.<off> for all inputs?  Decided on the value, not on the
+    spelling: a sum with an addend that is (usize arithmetic cannot wrap), the larger of two, every arm of a `match` /
+    `if` / every definition of a local, what `map_or` / `unwrap_or` / `map` / `then` … yield for each input variant (the
+    closures' return values, read with their captures), what a crate helper returns."""
+    from props.C14 import fold_accessors
+    f = fr.f
+    t = fold_accessors(f, K.fold_consts(strip_deep(t), f.consts))
+    k = t[0]
+    if k in ("param", "upvar"):
+        fr2, t2 = fr.resolve(t)
+        if t2 is t or (fr2 is fr and t2 == t):
+            return False
+        return _ge(fr2, t2, off, seen)
+    if k == "field":
+        if str(t[2]) == off and fr.is_self(t[1]):
+            return True
+        base = strip_deep(t[1])
+        if str(t[2]) == "0":
+            # checked addition: `(a + b)` is `AddWithOverflow(a, b).0` under an overflow assertion
+            if base[0] == "bin" and base[1] == "AddWithOverflow":
+                return _ge(fr, base[2], off, seen) or _ge(fr, base[3], off, seen)
+            if base[0] == "variant" and base[2] in _PAYLOAD_VARIANTS:
+                return _ge_payload(fr, base[1], off, seen)
+        return False
+    if k == "bin":
+        if t[1] in ("Add", "AddWithOverflow", "AddUnchecked"):
+            return _ge(fr, t[2], off, seen) or _ge(fr, t[3], off, seen)
+        return False
+    if k == "var":
+        key = (id(fr.body), t[2])
+        if key in seen:
+            return True                 # inductive: a definition in terms of the local itself (`len = len + 1`)
+        ds = fr.sym.defs_of_var(t[2])
+        return bool(ds) and all(_ge(fr, x, off, seen | {key}) for _, x in ds)
+    if k == "call":
+        info = t[3] or {}
+        name, a = info.get("name"), t[2]
+        std = (info.get("krate") or "") in _STD
+        if std and name in ("saturating_add", "strict_add", "unchecked_add") and len(a) == 2:
+            return _ge(fr, a[0], off, seen) or _ge(fr, a[1], off, seen)
+        if std and name == "max" and len(a) == 2:
+            return _ge(fr, a[0], off, seen) or _ge(fr, a[1], off, seen)
+        if std and name == "min" and len(a) == 2:
+            return _ge(fr, a[0], off, seen) and _ge(fr, a[1], off, seen)
+        if std and name == "clamp" and len(a) == 3:
+            return _ge(fr, a[1], off, seen)
+        if std and name == "map_or" and len(a) == 3:
+            return _ge(fr, a[1], off, seen) and _ge_fn(fr, a[2], [_payload_of(a[0])], off, seen)
+        if std and name == "map_or_else" and len(a) == 3:
+            return _ge_fn(fr, a[1], [None], off, seen) and _ge_fn(fr, a[2], [_payload_of(a[0])], off, seen)
+        if std and name == "unwrap_or" and len(a) == 2:
+            return _ge(fr, a[1], off, seen) and _ge_payload(fr, a[0], off, seen)
+        if std and name == "unwrap_or_else" and len(a) == 2:
+            return _ge_fn(fr, a[1], [None], off, seen) and _ge_payload(fr, a[0], off, seen)
+        if std and name in ("unwrap", "expect", "unwrap_unchecked") and len(a) >= 1:
+            return _ge_payload(fr, a[0], off, seen)
+        if std and name in ("copied", "cloned") and len(a) == 1:
+            return _ge(fr, a[0], off, seen)
+        # a crate helper: what it returns for these arguments
+        hb = f.body(info.get("res") or t[1])
+        if hb is not None and "{closure" not in hb.name and not std:
+            return _ge_fn(fr, ("fnref", hb.name), list(a), off, seen)
+        return False
+    return False
+
+
+def _ge_payload(fr, o, off, seen):
+    """Is every Some / Ok payload the Option / Result `o` can carry ≥ self.<off>?  (None / Err carry nothing.)"""
+    from props.C14 import fold_accessors
+    f = fr.f
+    o = fold_accessors(f, K.fold_consts(strip_deep(o), f.consts))
+    k = o[0]
+    if k in ("param", "upvar"):
+        fr2, o2 = fr.resolve(o)
+        if fr2 is fr and o2 == o:
+            return False
+        return _ge_payload(fr2, o2, off, seen)
+    if k == "agg":
+        if o[2] in ("None", "Err", "Break"):
+            return True
+        if o[2] in _PAYLOAD_VARIANTS and len(o[3]) == 1:
+            return _ge(fr, o[3][0][1], off, seen)
+        return False
+    if k == "var":
+        key = (id(fr.body), o[2], "payload")
+        if key in seen:
+            return True
+        ds = fr.sym.defs_of_var(o[2])
+        return bool(ds) and all(_ge_payload(fr, x, off, seen | {key}) for _, x in ds)
+    if k == "call":
+        info = o[3] or {}
+        name, a = info.get("name"), o[2]
+        std = (info.get("krate") or "") in _STD
+        if std and name == "map" and len(a) == 2:
+            return _ge_fn(fr, a[1], [_payload_of(a[0])], off, seen)
+        if std and name == "and_then" and len(a) == 2:
+            return _ge_fn(fr, a[1], [_payload_of(a[0])], off, seen, payload=True)
+        if std and name in ("filter", "ok_or", "ok_or_else", "ok", "map_err", "copied", "cloned", "inspect", "take",
+                            "branch", "or_else_none") and len(a) >= 1:
+            return _ge_payload(fr, a[0], off, seen)
+        if std and name in ("or", "xor") and len(a) == 2:
+            return _ge_payload(fr, a[0], off, seen) and _ge_payload(fr, a[1], off, seen)
+        if std and name == "or_else" and len(a) == 2:
+            return _ge_payload(fr, a[0], off, seen) and _ge_fn(fr, a[1], [None], off, seen, payload=True)
+        if std and name == "checked_add" and len(a) == 2:
+            return _ge(fr, a[0], off, seen) or _ge(fr, a[1], off, seen)
+        if std and name == "then_some" and len(a) == 2:
+            return _ge(fr, a[1], off, seen)
+        if std and name == "then" and len(a) == 2:
+            return _ge_fn(fr, a[1], [], off, seen)
+        hb = f.body(info.get("res") or o[1])
+        if hb is not None and "{closure" not in hb.name and not std:
+            return _ge_fn(fr, ("fnref", hb.name), list(a), off, seen, payload=True)
+        return False
+    return False
 
 
 def at_or_after(f, b, term, off, depth=0):
-    """Is the usize `term` ≥ self.<off> whatever the inputs: `self.off` plus unsigned addends — in every definition that
-    reaches it, through helpers that were folded in, `match`/`if` arms, `map_or(0, |i| i + 1)` …"""
-    from props.C14 import fold_accessors
-    s = K.sym_of(b)
+    """Is the usize `term` of body `b` ≥ self.<off> whatever the inputs (see _ge)."""
+    return _ge(_Frame(f, b), term, off, frozenset())
+
+
+def prefix_cut(f, b, term, bytes_f):
+    """If `term` is a prefix of self's byte buffer — `self.bytes.slice(..n)`, `.slice(0..n)`, `&self.bytes[..n]` (copied),
+    `split_at(n).0`, `clone().split_to(n)` — the length term n; else None."""
+    fr = _Frame(f, b)
     t = strip_deep(term)
-    if t[0] == "var" and depth < 6:
-        ds = s.defs_of_var(t[2])
-        return bool(ds) and all(at_or_after(f, b, x, off, depth + 1) for _, x in ds)
-    adds = _addends(fold_accessors(f, t), f.consts)
-    if adds is None:
-        return False
-    hits = [x for x in adds if re.match(r"^self\.%s$" % off, render(x))]
-    if len(hits) >= 1:
-        # every other addend is an unsigned quantity (usize arithmetic is checked: it cannot wrap below the offset)
-        return not any(x[0] == "const" and isinstance(x[1], int) and x[1] < 0 for x in adds)
-    if len(adds) == 1 and adds[0][0] == "var" and depth < 6:
-        return at_or_after(f, b, adds[0], off, depth + 1)
-    if len(adds) > 1 and depth < 6:
-        # one addend may itself be a variable holding `self.off + …`
-        return any(x[0] == "var" and at_or_after(f, b, x, off, depth + 1) for x in adds)
-    return False
+    while t[0] == "mvar":
+        t = strip_deep(t[3])
+
+    def is_buf(x):
+        x = strip_deep(x)
+        while x[0] == "mvar":
+            x = strip_deep(x[3])
+        return x[0] == "field" and str(x[2]) == bytes_f and fr.is_self(x[1])
+
+    def range_end(r):
+        r = K.fold_consts(strip_deep(r), f.consts)
+        if r[0] != "agg":
+            return None
+        flds = {str(k): v for k, v in r[3]}
+        if r[1].endswith("RangeTo") and "end" in flds:
+            return flds["end"]
+        if r[1].endswith("::Range") and flds.get("start") == ("const", 0) and "end" in flds:
+            return flds["end"]
+        return None
+    if t[0] == "call":
+        info = t[3] or {}
+        name, a = info.get("name"), t[2]
+        if name in ("copy_from_slice", "from_static") and len(a) == 1:
+            return prefix_cut(f, b, a[0], bytes_f)
+        if name in ("slice", "index", "get_unchecked") and len(a) == 2 and is_buf(a[0]):
+            return range_end(a[1])
+        if name == "split_to" and len(a) == 2 and is_buf(a[0]) and (info.get("krate") or "") == "bytes":
+            return a[1]
+    if t[0] == "field" and str(t[2]) == "0":
+        base = strip_deep(t[1])
+        if base[0] == "call" and (base[3] or {}).get("name") == "split_at" and len(base[2]) == 2 and is_buf(base[2][0]):
+            return base[2][1]
+    return None
 
 
 def shrinks_only(f, b, adt, bytes_f, off, need_site=False):
